@@ -1,0 +1,3 @@
+// Package verifhooks re-exports, for the verification harness only, a few functions of zoekt's internal packages
+// that an outside module cannot import. Every other file of this package is guarded by the build tag `verif`.
+package verifhooks
